@@ -290,6 +290,18 @@ class Closure:
         self.cells = c
 
 
+class PyFn:
+    """a harness-supplied function value (symbolic transformer closure)"""
+    __slots__ = ('fn',)
+    cells = EMPTY
+
+    def __init__(self, fn):
+        self.fn = fn
+
+    def __call__(self, *a):
+        return self.fn(*a)
+
+
 class FnItem:
     __slots__ = ('path',)
     cells = EMPTY
